@@ -73,7 +73,9 @@ AppendOnlyOK(e) ==
 JudgeP(e) ==
   IF e.res = "hang" THEN (IF IsQuery(e) THEN "P:fast-equals-lib" ELSE "P:append-only")
   ELSE IF ~AppendOnlyOK(e) THEN "P:append-only"
-  ELSE IF IsQuery(e) /\ Path(e) = "fast" /\
+  \* the accelerated path: where the design takes it, and wherever the surrogate is OBSERVED to have taken it (its cache flag is
+  \* set after the query) - e.g. for a user's kernel that the code wrongly deems eligible
+  ELSE IF IsQuery(e) /\ (Path(e) = "fast" \/ e.cached) /\
           ~(e.res = "val" /\ e.fshape = e.lshape /\ Len(e.fast) = ExpLen(e) /\ AllClose(e.fast, e.lib))
        THEN "P:fast-equals-lib"
   ELSE "ok"
